@@ -123,7 +123,8 @@ def gen(rng, tier, ctx):
         # names imported only under TYPE_CHECKING are resolvable through the diagram: keep every class in it
         subset = rng.sample(names, len(names))
     return {"spec": spec, "subset": subset, "ops": ops, "arg": rng.randrange(1000), "split": split,
-            "postponed": split or rng.random() < 0.6, "repeat": rng.randrange(100) if rng.random() < 0.15 else None}
+            "postponed": split or rng.random() < 0.6, "repeat": rng.randrange(100) if rng.random() < 0.15 else None,
+            "view_first": rng.choice([None, None, 0, 1])}
 
 
 def witnesses():
@@ -217,6 +218,16 @@ def run(case, ctx):
                     "detail": f"{type(e).__name__}: {e}"[:300]}
         C["diagrams_built"] += 1
         problems = []
+        if case.get("view_first") is not None:
+            # a derived view is built and queried before the diagram itself is asked anything: what the view answers
+            # must not become what the diagram answers (the accessors of the diagram are compared with the independent
+            # analysis below)
+            try:
+                early_view = cd.to_subdiagram_without_inherited_associations(bool(case["view_first"]))
+                query_snapshot(early_view)
+                C["views_queried_before_their_source"] += 1
+            except Exception as e:
+                problems.append(f"deriving and querying a view raised {type(e).__name__}: {e}"[:200])
         classes = list(dict.fromkeys(classes))         # one node per class, however often it is listed
         inherit, assoc, flags = independent_analysis(mod, classes)
         nodes = sorted(w.clazz.__name__ for w in cd.wrapped_classes)
@@ -257,6 +268,10 @@ def run(case, ctx):
                 got_fields = {k_[2] if len(k_) > 2 else None for k_ in keys.get(w.index, set())}
                 if exp_fields != got_fields and None not in got_fields:
                     problems.append(f"get_assoc_keys_by_source(True) lists the fields {sorted(map(str, got_fields))} for {w.clazz.__name__}, "
+                                    f"its association fields are {sorted(exp_fields)}")
+                got_out = sorted(e.field.field.name for e in cd.get_outgoing_relations(w.clazz) if isinstance(e, Association))
+                if got_out != sorted(exp_fields):
+                    problems.append(f"get_outgoing_relations({w.clazz.__name__}) has association edges for the fields {got_out}, "
                                     f"its association fields are {sorted(exp_fields)}")
                 exp_nb = ({p_ for p_, c_ in inherit if c_ == w.clazz.__name__} | {c_ for p_, c_ in inherit if p_ == w.clazz.__name__})
                 got_nb = {n.clazz.__name__ for n in cd.get_neighbors_with_relation_type(w.clazz, Inheritance)}
